@@ -315,6 +315,145 @@ theorem genSkipTo_refines (hr : Refines g s) (P : Program) (skip : Bool) (e p' :
         simp [hg, h3]
       · simp at h
 
+theorem genOT_refines (hs : Sound F g) (hr : Refines g s) (T : TableExprs) (PT : PTableExprs)
+    (h1 : T.prefixes = PT.prefixes) (h2 : T.operands = PT.operands) (h3 : T.postfixes = PT.postfixes)
+    (h4 : T.infixes = PT.infixes) :
+    ∀ fuel ph st last res, pegOT s PT fuel ph st = some res → (ph = .inf → st.outerCp = st.pos) →
+    ∃ r, genOT F g T fuel ph st last = some r ∧ Rel r res := by
+  intro fuel
+  induction fuel with
+  | zero => intro ph st last res h; simp [pegOT] at h
+  | succ n ih =>
+    intro ph st last res h hinv
+    cases ph with
+    | pre =>
+      simp only [pegOT] at h
+      simp only [genOT, h1]
+      split at h
+      · rename_i hp; simp only [hp]; exact ih _ _ _ _ h (by simp)
+      · rename_i pe hp
+        simp only [hp]
+        split at h
+        · simp at h
+        · rename_i he
+          obtain ⟨r, hg, hst, _, hok⟩ := hr.fail hs he
+          simp only [hg, hok, Bool.false_eq_true, ↓reduceIte]
+          have hp' : (if (flagsOf F pe).cps = true then st.pos else r.pos) = st.pos := by
+            cases hc : (flagsOf F pe).cps
+            · simp [hs.fail_pos hg hc hst]
+            · simp
+          rw [hp']
+          exact ih _ _ _ _ h (by simp)
+        · rename_i v p' he
+          obtain ⟨r, hg, _, hv, hpos, hok⟩ := hr.ok (F := F) he
+          simp only [hg, hok, ↓reduceIte, hv]
+          split at h
+          · simp at h
+          · rename_i o ho
+            simp only [ho, hpos]
+            exact ih _ _ _ _ h (by simp)
+    | operand =>
+      simp only [pegOT] at h
+      simp only [genOT, h2]
+      split at h
+      · simp at h
+      · rename_i he
+        obtain ⟨r, hg, hst, _, hok⟩ := hr.fail hs he
+        simp only [hg, hok, Bool.false_eq_true, ↓reduceIte]
+        split at h
+        · rename_i hemp
+          simp at h; subst h
+          simp only [hemp, ↓reduceIte]
+          exact ⟨_, rfl, hst⟩
+        · rename_i hemp
+          simp only [hemp, Bool.false_eq_true, ↓reduceIte]
+          split at h
+          · simp at h
+          · rename_i v hv
+            simp at h; subst h
+            simp only [hv]
+            exact ⟨_, rfl, rfl, rfl, rfl⟩
+      · rename_i v p' he
+        obtain ⟨r, hg, _, hv, hpos, hok⟩ := hr.ok (F := F) he
+        simp only [hg, hok, ↓reduceIte, hv, hpos]
+        exact ih _ _ _ _ h (by simp)
+    | post =>
+      simp only [pegOT] at h
+      simp only [genOT, h3]
+      split at h
+      · rename_i hp; simp only [hp]; exact ih _ _ _ _ h (by simp)
+      · rename_i pe hp
+        simp only [hp]
+        split at h
+        · simp at h
+        · rename_i he
+          obtain ⟨r, hg, hst, _, hok⟩ := hr.fail hs he
+          simp only [hg, hok, Bool.false_eq_true, ↓reduceIte]
+          have hp' : (if (flagsOf F pe).cps = true then st.pos else r.pos) = st.pos := by
+            cases hc : (flagsOf F pe).cps
+            · simp [hs.fail_pos hg hc hst]
+            · simp
+          rw [hp']
+          exact ih _ _ _ _ h (by simp)
+        · rename_i v p' he
+          obtain ⟨r, hg, _, hv, hpos, hok⟩ := hr.ok (F := F) he
+          simp only [hg, hok, ↓reduceIte, hv]
+          split at h
+          · simp at h
+          · rename_i prec op hd
+            simp only [hd]
+            split at h
+            · simp at h
+            · rename_i ops' operands' hred
+              simp only [hred]
+              split at h
+              · simp at h
+              · simp only [hpos]
+                exact ih _ _ _ _ h (by simp)
+    | inf =>
+      have hcp := hinv rfl
+      simp only [pegOT] at h
+      simp only [genOT, h4]
+      split at h
+      · rename_i hp
+        simp only [hp]
+        split at h
+        · simp at h
+        · rename_i v hv; simp at h; subst h; simp only [hv]; exact ⟨_, rfl, rfl, rfl, rfl⟩
+      · rename_i ie hp
+        simp only [hp]
+        split at h
+        · simp at h
+        · rename_i he
+          obtain ⟨r, hg, hst, _, hok⟩ := hr.fail hs he
+          simp only [hg, hok, Bool.false_eq_true, ↓reduceIte]
+          split at h
+          · simp at h
+          · rename_i v hv
+            simp at h; subst h
+            simp only [hv]
+            refine ⟨_, rfl, rfl, rfl, ?_⟩
+            cases hc : (flagsOf F ie).cps
+            · simp [hs.fail_pos hg hc hst]
+            · simp [hcp]
+        · rename_i v p' he
+          obtain ⟨r, hg, _, hv, hpos, hok⟩ := hr.ok (F := F) he
+          simp only [hg, hok, ↓reduceIte, hv]
+          split at h
+          · simp at h
+          · rename_i o ho
+            simp only [ho]
+            split at h
+            · simp at h
+            · rename_i ops' operands' hred
+              simp only [hred]
+              split at h
+              · simp at h
+              · rename_i tree ht; simp at h; subst h; simp only [ht]; exact ⟨_, rfl, rfl, rfl, rfl⟩
+            · rename_i ops' operands' hred
+              simp only [hred, hpos]
+              exact ih _ _ _ _ h (by simp)
+
 end Sourcer
 
 namespace Sourcer
@@ -547,5 +686,22 @@ theorem gen_refines (hF : LocallySound F) (P : Program) (inp : List Nat) :
       split at h <;> rename_i hk <;> simp at h <;> subst h <;> simp [hk, Rel]
     | fail => simp only [peg] at h; simp at h; subst h; simp [gen, Rel]
     | py v => simp only [peg] at h; simp at h; subst h; simp [gen, Rel]
+    | tagged x tag =>
+      simp only [peg] at h
+      simp only [gen]
+      split at h
+      · simp at h
+      · rename_i hx
+        obtain ⟨r, hg, hst, _, hok⟩ := Refines.fail hs ih hx
+        simp at h; subst h
+        exact ⟨r, by simp [hg, hok], hst⟩
+      · rename_i v p' hx
+        obtain ⟨r, hg, _, h2, h3, hok⟩ := Refines.ok (F := F) ih hx
+        simp at h; subst h
+        exact ⟨⟨true, .tuple (tag.map Val.int ++ [r.result]), r.pos⟩, by simp [hg, hok], rfl, by simp [h2], h3⟩
+    | optable pre operand mixfix post inf =>
+      simp only [peg] at h
+      simp only [gen]
+      exact genOT_refines hs ih _ _ rfl rfl rfl rfl _ _ _ _ _ h (by simp)
 
 end Sourcer
